@@ -251,6 +251,60 @@ def _explore(args):
     return res, roots
 
 
+def free_running_smoke(rounds=15):
+    """the same caller bodies on real threads with the real FileLock and NO scheduler: a smoke test of the harness bodies
+    themselves (not evidence: the OS decides the interleaving)"""
+    import threading
+
+    from taskchain.cache import NO_VALUE
+    bad = []
+    n = 0
+    for hname, h in harnesses().items():
+        ctype = h['ctype']
+        for r in range(rounds):
+            d = scratch.fresh('c15f')
+            try:
+                if h['old']:
+                    make_cache(ctype, d).get_or_compute(KEY, lambda: _value(ctype, 'old'))
+                results = {}
+                done = {}
+
+                def body(name, kind, after):
+                    if after:
+                        done[after].wait(20)
+                    c = make_cache(ctype, d)
+                    try:
+                        if kind == 'get':
+                            results[name] = ('ok', c.get(KEY))
+                        else:
+                            results[name] = ('ok', c.get_or_compute(KEY, lambda: _value(ctype, name), force=(kind == 'force')))
+                    except Exception as e:  # noqa
+                        results[name] = ('exc', e)
+                    done[name].set()
+                ths = []
+                for name, kind, after in h['callers']:
+                    done[name] = threading.Event()
+                for name, kind, after in h['callers']:
+                    t = threading.Thread(target=body, args=(name, kind, after), daemon=True)
+                    ths.append(t)
+                for t in ths:
+                    t.start()
+                for t in ths:
+                    t.join(30)
+                n += 1
+                for name, (st, val) in results.items():
+                    if st == 'exc':
+                        bad.append(f'{hname} round {r}: caller {name} raised {type(val).__name__}: {val}')
+                    elif _who(ctype, val) is None:
+                        bad.append(f'{hname} round {r}: caller {name} returned an incomplete value {val!r}')
+                path = make_cache(ctype, d).filepath(KEY)
+                if path.exists() and _who(ctype, make_cache(ctype, d).load_value(path, KEY)) is None:
+                    bad.append(f'{hname} round {r}: entry at quiescence incomplete')
+            finally:
+                scratch.drop(d)
+    return n, bad
+
+
 PLAN = {
     'quick': [('H1-empty', 2, False), ('H2-present-forced', 2, True), ('H4-happens-before', 2, True), ('H6-two-writers-reader', 3, False), ('H3-two-forced', 2, True),
               ('H7-numpy-reader', 2, True), ('H8-frame-reader', 2, True)],
@@ -277,6 +331,10 @@ def run(tier, seed):
         per[hname]['distinct_outcomes'] = len({o for h, o in outs if h == hname})
         if expect and per[hname]['reader_in_write_window'] == 0:
             res.harness_errors.append(f'{hname}: vacuous - no schedule put a reader into a write window')
+    nfree, bad = free_running_smoke(8 if tier == 'quick' else 40)
+    res.coverage['free_running_smoke_runs'] = nfree
+    for b in bad:
+        res.harness_errors.append(f'free-running smoke test of the harness bodies failed although no controlled schedule did: {b}')
     res.coverage['states'] = sum(p['distinct_outcomes'] for p in per.values())
     res.coverage['distinct_nontrivial'] = res.coverage['states']
     res.coverage['traces_validated_against_impl'] = res.coverage['evaluations']
